@@ -3,7 +3,7 @@
    may crash up to MaxCrashes times, anywhere (also during recovery).                     *)
 EXTENDS TMCommitPipeline, Json, SequencesExt
 
-CONSTANTS MaxHeight, MaxCrashes, PlanId, EmitSched, MaxAppRollback, MaxTamper, InitialHeight
+CONSTANTS MaxHeight, MaxCrashes, PlanId, EmitSched, MaxAppRollback, MaxTamper, InitialHeight, Discard
 
 VARIABLES s, act
 vars == <<s, act>>
@@ -17,7 +17,7 @@ Plans == << [txs |-> <<2, 1, 0, 1, 0>>, vu |-> <<1>>, pu |-> <<2>>, retain |-> <
             [txs |-> <<2, 1, 0, 1, 0>>, vu |-> <<1>>, pu |-> <<2>>, retain |-> <<0, 0, 0, 0, 0>>, hashc |-> TRUE],
             [txs |-> <<2, 1, 0, 1, 0>>, vu |-> <<1>>, pu |-> <<2>>, retain |-> <<0, 0, 0, 0, 0>>, hashc |-> FALSE] >>
 \* the node commits MaxHeight blocks, the first one at the genesis InitialHeight
-Cfg == [maxh |-> InitialHeight - 1 + MaxHeight, ih |-> InitialHeight, txs |-> Plans[PlanId].txs, vu |-> Plans[PlanId].vu, pu |-> Plans[PlanId].pu,
+Cfg == [maxh |-> InitialHeight - 1 + MaxHeight, ih |-> InitialHeight, discard |-> Discard, txs |-> Plans[PlanId].txs, vu |-> Plans[PlanId].vu, pu |-> Plans[PlanId].pu,
         retain |-> Plans[PlanId].retain, hashc |-> Plans[PlanId].hashc]
 
 Abs(x) == IF x < 0 THEN -x ELSE x
@@ -62,6 +62,7 @@ HeightsAgree        == HeightsAgreeAt(s)
 CursorsWithinOne    == CursorsWithinOneAt(s)
 WalEndImpliesStored == WalEndImpliesStoredAt(s)
 NoStuck             == NoStuckAt(s)
+StateIsChainState   == StateIsChainStateAt(s)
 MempoolBracket      == MempoolBracketAt(s)
 ResponsesBeforeCommit == ResponsesBeforeCommitAt(s)
 \* Progress: whatever the crash schedule, the node ends up having committed MaxHeight
